@@ -254,3 +254,37 @@ example : Inv exW exV := by
     · simp [exV, agetD, alookup, Ne.symm hk] at hd
 
 end NSG
+
+namespace NSG
+theorem invB_iff (w : World) (v : View) : invB w v = true ↔ Inv w v := by
+  simp only [invB, Bool.and_eq_true, List.all_eq_true, decide_eq_true_eq]
+  constructor
+  · rintro ⟨⟨⟨⟨⟨h1, h2⟩, h3⟩, h4⟩, h5⟩, h6⟩
+    refine ⟨h1, h2, h3, h4, ?_, ?_⟩
+    · intro k s hs
+      have := h5 k (mem_keys_of_mem_agetD hs) s hs
+      cases hh : alookup k w.hostname with
+      | none => simp [hh] at this
+      | some hn =>
+        cases hss : alookup hn w.services with
+        | none => simp [hh, hss] at this
+        | some ss => exact ⟨hn, ss, rfl, hss, by simpa [hh, hss] using this⟩
+    · intro k d hd
+      have := h6 k (mem_keys_of_mem_agetD hd) d hd
+      cases hh : alookup k w.hostname with
+      | none => simp [hh] at this
+      | some hn => exact ⟨hn, rfl, by simpa [hh] using this⟩
+  · intro hi
+    refine ⟨⟨⟨⟨⟨hi.ctrl_known, hi.svc_known⟩, hi.data_ctrl⟩, hi.host_exists⟩, ?_⟩, ?_⟩
+    · intro k _ s hs
+      obtain ⟨hn, ss, h1, h2, h3⟩ := hi.svc_exists k s hs
+      simp [h1, h2, h3]
+    · intro k _ d hd
+      obtain ⟨hn, h1, h2⟩ := hi.data_exists k d hd
+      simp [h1, h2]
+
+theorem leB_of_le (v v' : View) (h : v.le v') : leB v v' = true := by
+  simp only [leB, Bool.and_eq_true, List.all_eq_true, decide_eq_true_eq]
+  exact ⟨⟨⟨⟨h.nets, h.known⟩, h.controlled⟩, fun k hk => ⟨h.dataKeys k hk, fun d hd => h.data k d hd⟩⟩,
+    fun k hk => ⟨h.blockKeys k hk, fun d hd => h.blocks k d hd⟩⟩
+end NSG
